@@ -13,7 +13,7 @@ def run(ctx: Ctx):
         "Model/CppGen.v is a hand model of the emission layout; tied on every run by parsing the generated header/source back (tools/lib/cpptext.py) and comparing tables inside Coq",
         "values: sympy diff / subs / ccode are oracles; checked by compiling the generated code (g++ -std=c++20, Eigen stand-in tools/cpp/shim/Eigen/Dense; real Eigen not installed) and comparing every function, entry by entry and by name, with exact sympy values; 'it compiles' is an observation of g++",
     ]
-    jobs = cppjobs.make_jobs(ctx, n, min_sensors=0, max_sensors=3, function_coverage=True)
+    jobs = cppjobs.make_jobs(ctx, n, min_sensors=0, max_sensors=3, function_coverage=True, tiny_sensor_noise=True)
     for j in jobs:
         j["keep_text"] = True
     pres = ctx.run_impl_jobs("ekf_py.py", jobs)
